@@ -224,6 +224,20 @@ def check_case(ctx: Ctx, c: dict):
                     if got != spec or cnt != len(spec):
                         ctx.violation("database range filter does not select exactly the members", q,
                                       {"got": got[:8], "spec": spec[:8], "count": cnt}, key="dbfilter-vs-spec")
+                # the same filter through the "all spaces" entry points: get_all(None, sub) / count(None, sub)
+                for (b, e) in sorted({(q[2], q[3]) for q in c["queries"]}):
+                    u = im.IDSubspace(b, e)
+                    got = sorted(i.id for i in m.get_all(None, u))
+                    cnt = m.count(None, u)
+                    mod = sorted(n for n in set(ids) for (cb, u3) in SPACES
+                                 if d.ask(f"contains {sp(cb, u3)} {n}") == "1" and d.ask(f"sqlfilter {sp(cb, u3)} {b} {e} {n}") == "1")
+                    q = dict(k="dbfilter", ids=ids, queries=[[24, True, b, e]], all_spaces=True)
+                    ctx.eq("get_all(None) filter", q, got, mod)
+                    ctx.eq("count(None) filter", q, cnt, len(mod))
+                    spec = sorted(n for n in set(ids) for (cb, u3) in SPACES if d.ask(f"spec_member {sp(cb, u3)} {b} {e} {n}") == "1")
+                    if got != spec or cnt != len(spec):
+                        ctx.violation("database range filter over all spaces does not select exactly the members", q,
+                                      {"got": got[:8], "spec": spec[:8], "count": cnt}, key="dbfilter-allspaces-vs-spec")
             finally:
                 m.close()
     elif k == "str":
